@@ -43,10 +43,12 @@ StepFails(r) ==
     IN
     IF ~Fits(v, q) THEN {F("domain", v.d)}
     ELSE If(r.res.cls # d.cls, "dispatch.class", d.cls)
-         \cup If(r.res.is_lhs # (d.ident = "lhs") \/ r.res.is_rhs, "dispatch.identity", d.ident)
+         \cup If(r.res.is_lhs # (d.ident = "lhs") \/ (r.res.is_rhs /\ ~(r.self /\ d.ident = "lhs")), "dispatch.identity", d.ident)
          \cup If(r.la # (IF d.mut = "lhs" THEN Scale(v, q) ELSE Scale(l, q)), "operand.lhs",
                  IF d.mut = "lhs" THEN Scale(v, q) ELSE Scale(l, q))
-         \cup If(r.ra # Scale(rr, q), "operand.rhs", Scale(rr, q))
+         \* the right operand is never changed - unless it is the left operand of an in-place form itself
+         \cup If(r.ra # (IF r.self /\ d.mut = "lhs" THEN Scale(v, q) ELSE Scale(rr, q)), "operand.rhs",
+                 IF r.self /\ d.mut = "lhs" THEN Scale(v, q) ELSE Scale(rr, q))
          \cup If(r.res.n # Scale(v, q), "value", Scale(v, q))
          \cup (IF a.ok /\ AngFits(a.ang, q) THEN If(r.res.pt # AngOut(a.ang, q), "value.angle", AngOut(a.ang, q)) \cup TolPt(r) ELSE {})
          \cup Tol(r)
